@@ -480,3 +480,48 @@ Qed.
 
 Lemma zwf_nil c : zwf c [].
 Proof. split; constructor. Qed.
+
+(* ---------------------------------------------------------------- iteration counts (OIter)
+   iterate_names / iterate_rdatasets of a well-formed version count exactly the distinct owners and the
+   records of its abstraction - the one observation that `refines` leaves out *)
+Lemma existsb_ext {A} (f g : A -> bool) l : (forall x, f x = g x) -> existsb f l = existsb g l.
+Proof. intros H. induction l; cbn; [reflexivity|]. rewrite H, IHl. reflexivity. Qed.
+
+Lemma distinct_names_mem l : forall a,
+  existsb (fun x => name_eqb x a) (distinct_names l) = existsb (at_name a) l.
+Proof.
+  induction l as [|e l IH]; intros a; cbn [distinct_names existsb]; [reflexivity|].
+  destruct (existsb (fun x => name_eqb x (e_name e)) (distinct_names l)) eqn:M.
+  - rewrite IH. destruct (at_name a e) eqn:E; [|reflexivity]. cbn [orb].
+    rewrite IH in M. rewrite <- M. apply existsb_ext. intros x. unfold at_name in *. symmetry.
+    apply name_eqb_trans_r. exact E.
+  - cbn [existsb]. rewrite IH. reflexivity.
+Qed.
+
+Lemma distinct_names_same_owner a nd l :
+  nd <> [] -> existsb (at_name a) l = false ->
+  distinct_names (map (mkEntry a) nd ++ l) = a :: distinct_names l.
+Proof.
+  intros Hn Hl. induction nd as [|r nd IH]; [contradiction|]. cbn [map app distinct_names e_name].
+  destruct nd as [|r2 nd].
+  - cbn [map app]. rewrite distinct_names_mem, Hl. reflexivity.
+  - rewrite IH by discriminate. cbn [existsb]. rewrite name_eqb_refl. reflexivity.
+Qed.
+
+Theorem iter_counts_abs c m ch d :
+  wfc c -> zwf c m -> s_count (zstore c) (mkVer m ch) = s_count (rstore c) (mkRst (abs c m) d).
+Proof.
+  intros W [Hnd Hall]. cbn [s_count zstore rstore v_nodes rs_entries]. f_equal.
+  - (* names *)
+    unfold zlen. f_equal. induction m as [|[k0 nd0] m IH]; [reflexivity|].
+    destruct Hnd as [Hn0 Hnd]. inversion Hall as [|? ? [K0 [Ne0 _]] Hall']; subst. cbn [fst snd] in *.
+    rewrite abs_cons, distinct_names_same_owner; [cbn [length]; rewrite (IH Hnd Hall'); reflexivity|exact Ne0|].
+    (* no other node belongs to the same owner *)
+    pose proof (RP_abs c m W (conj Hnd Hall')) as (Hm & _ & _). cbn [v_nodes rs_entries] in Hm.
+    destruct K0 as [Vk Hk]. destruct (key_ok_canon c k0 W (conj Vk Hk)) as [Ca _].
+    specialize (Hm k0 k0 (abs_key c k0) Vk Hk Ca). rewrite Hn0 in Hm. symmetry in Hm. apply opt_node_none in Hm.
+    rewrite existsb_entries, Hm. reflexivity.
+  - (* rdatasets *)
+    clear Hnd Hall. induction m as [|[k0 nd0] m IH]; [reflexivity|].
+    rewrite abs_cons. cbn [fold_right snd]. rewrite IH. unfold zlen. rewrite app_length, map_length. lia.
+Qed.
